@@ -168,18 +168,26 @@ func (fs *Filespace) Writer(destPath string) (writer filesystem.Writer, err erro
 		return nil, err
 	}
 	dir.Lock()
-	defer dir.Unlock()
 	if node, err = dir.getNode(destNodeName); err != nil {
 		file = NewFile(destNodeName, filesystem.DefaultUnixFileMode, time.Now(), []byte{})
-		if err = dir.addNode(file); err != nil {
+		// the new file is locked before it becomes visible: nobody may read it while it is
+		// still empty
+		handler := NewFileHandler(file)
+		err = dir.addNode(file)
+		dir.Unlock()
+		if err != nil {
+			handler.Close()
 			return nil, err
 		}
-	} else {
-		if file, ok = node.(*File); !ok {
-			return nil, goaterr.Errorf("Node %s must be a file", destPath)
-		}
-		file.time = time.Now()
+		return handler, nil
 	}
+	// the directory is released before waiting for the file's data lock: a handle that is
+	// still open on the file must not block the whole directory (lock-order deadlock)
+	dir.Unlock()
+	if file, ok = node.(*File); !ok {
+		return nil, goaterr.Errorf("Node %s must be a file", destPath)
+	}
+	file.time = time.Now()
 	handler := NewFileHandler(file)
 	// a writer replaces the previous content (the handler holds the data lock)
 	file.data = []byte{}
@@ -224,15 +232,17 @@ func (fs *Filespace) WriteFile(destPath string, data []byte, filemode os.FileMod
 		return err
 	}
 	dir.Lock()
-	defer dir.Unlock()
 	if node, err = dir.getNode(destNodeName); err != nil {
 		file = NewFile(destNodeName, filesystem.DefaultUnixFileMode, time.Now(), data)
-		return dir.addNode(file)
+		err = dir.addNode(file)
+		dir.Unlock()
+		return err
 	}
+	// release the directory before waiting for the file's data lock (see Writer)
+	dir.Unlock()
 	if file, ok = node.(*File); !ok {
 		return goaterr.Errorf("Node %s must be a file", destPath)
 	}
-	file.time = time.Now()
 	file.setData(data)
 	return nil
 }
